@@ -194,12 +194,50 @@ const SCHEMAS = [
   S('proto', 'X.prototype.trim.apply(@X@)'),
   S('proto', 'X.prototype.trim.apply(@X@, [])'),
   S('proto', 'X.prototype.trim.call(@X@, @Y@)'),
+  // string-literal receivers of every method that accepts them (and of some that do not), constant templates
+  S('method', "'lit'.concat(@X@)"),
+  S('method', "'lit'.concat(@X@, @Y@)"),
+  S('proto', "String.prototype.concat.call('lit', @X@)"),
+  S('method', "'lit'.replace(@X@)"),
+  S('method', "'lit'.replace(@X@, @Y@)"),
+  S('proto', "String.prototype.replace.call('lit', @X@)"),
+  S('method', "'lit'.replaceAll(@X@)"),
+  S('method', "'lit'.replaceAll(@X@, @Y@)"),
+  S('proto', "String.prototype.replaceAll.call('lit', @X@)"),
+  S('method', "'lit'.padEnd(@X@)"),
+  S('method', "'lit'.padEnd(@X@, @Y@)"),
+  S('proto', "String.prototype.padEnd.call('lit', @X@)"),
+  S('method', "'lit'.padStart(@X@)"),
+  S('method', "'lit'.padStart(@X@, @Y@)"),
+  S('proto', "String.prototype.padStart.call('lit', @X@)"),
+  S('method', "'lit'.repeat(@X@)"),
+  S('method', "'lit'.repeat(@X@, @Y@)"),
+  S('proto', "String.prototype.repeat.call('lit', @X@)"),
+  S('method', "'lit'.trim(@X@)"),
+  S('method', "'lit'.trim(@X@, @Y@)"),
+  S('proto', "String.prototype.trim.call('lit', @X@)"),
+  S('method', "'lit'.substring(@X@)"),
+  S('method', "'lit'.substring(@X@, @Y@)"),
+  S('proto', "String.prototype.substring.call('lit', @X@)"),
+  S('method', "'lit'.slice(@X@)"),
+  S('method', "'lit'.slice(@X@, @Y@)"),
+  S('proto', "String.prototype.slice.call('lit', @X@)"),
+  S('method', "'lit'.replace('l', 'm')"),
+  S('method', '`t`.concat(@X@)'),
+  S('plus', '`t` + `u` + @X@'),
+  S('plus', "'l' + `t` + @X@"),
+  S('method', "a.concat(`t` + 'l', @X@)"),
+  S('tpl', '`${`t` + `u`}${@X@}`'),
   // more arguments than the form needs: they are still evaluated
   S('proto', 'X.prototype.concat.apply(a, [@X@], @Y@)', { surplus: true }),
   S('proto', 'X.prototype.concat.apply(a, arr, f(), @X@)', { surplus: true }),
   S('proto', 'X.prototype.concat.apply(@X@, @Y@, @Z@)', { surplus: true }),
   S('proto', 'X.prototype.trim.apply(a, [], @X@)', { surplus: true })
 ]
+
+// schemas after the original list are the long tail added by the seeding rounds: in the quick tier they are nested
+// (family C) as OUTER operations only
+{ const core = SCHEMAS.findIndex((x) => x.tpl === 'aloneMethod(@X@, ...arr)'); SCHEMAS.forEach((x, i) => { if (i > core) x.tail = true }) }
 
 // ---- G3 expression contexts ------------------------------------------------------------------------
 const EXPRCTX = [
@@ -290,7 +328,10 @@ const SCOPES = {
   module: (body) => `export function main(E) { ${PRE}  ${body}\n}`,
   crlf: (body) => `function main(E) { ${PRE}  ${body}\n}`.replace(/\n/g, '\r\n'),
   comments: (body) => `// leading comment ñ\n/* block */\nfunction main(E) { ${PRE}  /* c1 */ ${body} // c2\n}`,
-  hashbang: (body) => `#!/usr/bin/env node\nfunction main(E) { ${PRE}  ${body}\n}`
+  hashbang: (body) => `#!/usr/bin/env node\nfunction main(E) { ${PRE}  ${body}\n}`,
+  // the file starts with an empty statement (defensive semicolon of concatenated scripts)
+  empty_first: (body) => `;function main(E) { ${PRE}  ${body}\n}`,
+  strict_file_empty: (body) => `'use strict';;\nfunction main(E) { ${PRE}  ${body}\n}`
 }
 
 // spread sources (slot S): every expression kind that may follow `...`
